@@ -51,6 +51,8 @@ def render(v, sort=True):
         return "R( " + render(v[1], sort) + " )"
     if k == "cycle":
         return "#cycle"
+    if k in ("H", "h", "G"):      # application structs holding a pointer field (harness only)
+        return f"{k}( {render(v[1], sort)} {render(v[2], sort)} )"
     raise ValueError(k)
 
 
@@ -423,6 +425,14 @@ class ValueGen:
                 kid = go_key_id(k)
                 if kid is not None and kid in seen:
                     continue
+                if not self.canonical:
+                    # a builtin map outside the decoder's own domain may be decoded into a Dict, or have its
+                    # ByteString keys turned into strings: keys that would then coincide (False / -0.0,
+                    # ByteString "a" / "a") make the result depend on the map's iteration order
+                    pid = py_key_id(k)
+                    if pid is not None and ("py", pid) in seen:
+                        continue
+                    seen.add(("py", pid))
                 seen.add(kid)
                 kvs.append((k, self.value(depth + 1)))
             return ("m", kvs)
@@ -471,3 +481,75 @@ def max_entries(v):
     elif k == "R":
         m = max_entries(v[1])
     return m
+
+
+def mapv(v, f):
+    """Rebuild v bottom-up, applying f to every node."""
+    k = v[0]
+    if k in ("l", "t"):
+        v = (k, [mapv(x, f) for x in v[1]])
+    elif k in ("m", "d"):
+        v = (k, [(mapv(a, f), mapv(b, f)) for a, b in v[1]])
+    elif k == "c":
+        v = (k, v[1], v[2], [mapv(x, f) for x in v[3]])
+    elif k == "R":
+        v = (k, mapv(v[1], f))
+    return f(v)
+
+
+# ------------------------------------------------------------------ non-canonical relatives (typed tokens)
+
+def with_relatives(rng, v):
+    """Replace some canonical leaves by non-canonical relatives with the same normal form."""
+    k = v[0]
+    if k == "I" and rng.random() < 0.3:
+        n = v[1]
+        opts = []
+        if -128 <= n < 128:
+            opts.append(("Qraw", f"Q8:{n}"))
+        if -2 ** 15 <= n < 2 ** 15:
+            opts.append(("Qraw", f"Q16:{n}"))
+        if -2 ** 31 <= n < 2 ** 31:
+            opts.append(("Qraw", f"Q32:{n}"))
+        opts.append(("Qraw", f"Q0:{n}"))
+        if 0 <= n < 256:
+            opts.append(("Qraw", f"V8:{n}"))
+        if 0 <= n < 2 ** 16:
+            opts.append(("Qraw", f"V16:{n}"))
+        if 0 <= n:
+            opts.append(("Qraw", f"V64:{n}"))
+            opts.append(("Qraw", f"V0:{n}"))
+        return ("raw", rng.choice(opts)[1], v)
+    if k == "D" and rng.random() < 0.5:
+        # a float32 holding some (mostly non-dyadic) value: its normal form is the exact widening to float64
+        import struct
+        b32 = rng.choice([0x3dcccccd, 0x3eaaaaab, 0x40490fdb, 0x00000001, 0x7f7fffff, 0x80000000, 0x7f800000, 0x3f800000,
+                          0x00800000, 0x007fffff, 0xc2f6e979, rng.getrandbits(32)])
+        f = struct.unpack(">f", struct.pack(">I", b32))[0]
+        if f == f:
+            return ("raw", "E%08x" % b32, ("D", f64bits(f)))
+    if k == "N" and rng.random() < 0.3:
+        return ("raw", "Nil", v)
+    if k in ("l", "t"):
+        return (k, [with_relatives(rng, x) for x in v[1]])
+    if k in ("I", "D", "S", "B", "T", "F") and rng.random() < 0.08:
+        return ("raw", "P( " + render(v) + " )", v)
+    return v
+
+
+def render_raw(v):
+    k = v[0]
+    if k == "raw":
+        return v[1]
+    if k in ("l", "t"):
+        return k + "( " + "".join(render_raw(x) + " " for x in v[1]) + ")"
+    return render(v, sort=False)
+
+
+def strip_raw(v):
+    k = v[0]
+    if k == "raw":
+        return v[2]
+    if k in ("l", "t"):
+        return (k, [strip_raw(x) for x in v[1]])
+    return v
